@@ -21,13 +21,14 @@ B_KINDS = ["none", "second_of_peer1", "peer2_ready", "peer2_pre_cer"]
 REACT = ["dpa_prompt", "dpa_late", "never", "close", "dwa_then_dpa"]
 
 
-def scenario(sa: int, kb: int, ra: int, rb: int, force: bool, wt: int, newcomer: bool, deadline: bool) -> bool:
+def scenario(sa: int, kb: int, ra: int, rb: int, force: bool, wt: int, newcomer: bool, deadline: bool, eager_io: bool) -> bool:
     """
     pre: sa == P["sa"] and kb == P["kb"] and 0 <= ra < len(REACT) and 0 <= rb < len(REACT) and wt in (2, 6)
     pre: (not force) or (ra == 0 and rb == 0)
     pre: P["sa"] in (3, 4) or ra == 0
     pre: P["kb"] in (1, 2) or rb == 0
     pre: (not P["quick"]) or (wt == 2 and newcomer == deadline)
+    pre: (not eager_io) or (not force and P["kb"] in (1, 2) and P["sa"] in (3, 4))
     post: _
     """
     hx.begin()
@@ -35,7 +36,7 @@ def scenario(sa: int, kb: int, ra: int, rb: int, force: bool, wt: int, newcomer:
     kb_n = B_KINDS[P["kb"]]
     react = [REACT[hx.concretize_range(ra, 0, len(REACT))], REACT[hx.concretize_range(rb, 0, len(REACT))]]
     W = 2 if wt == 2 else 6
-    inputs = (sa, kb, ra, rb, force, wt, newcomer, deadline)
+    inputs = (sa, kb, ra, rb, force, wt, newcomer, deadline, eager_io)
     import diameter.node._helpers as helpers
     saved_join = helpers.StoppableThread.join
     try:
@@ -135,6 +136,28 @@ def scenario(sa: int, kb: int, ra: int, rb: int, force: bool, wt: int, newcomer:
             h.settle()
             collect()
         WORLD.on_sleep = on_sleep
+        # a legal schedule: the I/O thread (and the peers) run between two statements of stop(), e.g. right after a DPR
+        # has been queued - the world settles, prompt DPAs come back and connections are removed while stop() still iterates
+        real_add = B.PeerConnection.add_out_msg
+        busy = [False]
+
+        def add_out_msg(self_, m):
+            real_add(self_, m)
+            if eager_io and n._stopping and not busy[0] and m.header.command_code == 282 and m.header.is_request:
+                busy[0] = True
+                try:
+                    h.settle()
+                    collect()
+                    for item in list(pending):
+                        t_, i_, m_ = item
+                        if t_ <= tick[0] and not socks[i_].closed:
+                            socks[i_].inq.append(B.dpa(B.PEER_HOSTS[0], m_.header.hop_by_hop_identifier, m_.header.end_to_end_identifier).as_bytes())
+                            pending.remove(item)
+                    h.settle()
+                    collect()
+                finally:
+                    busy[0] = False
+        B.PeerConnection.add_out_msg = add_out_msg
 
         def join(self_, timeout=None):
             if self_ is n._connection_thread:
@@ -177,6 +200,10 @@ def scenario(sa: int, kb: int, ra: int, rb: int, force: bool, wt: int, newcomer:
         obs = ("raised %s: %s" % (type(e).__name__, str(e)[:100]),)
     finally:
         helpers.StoppableThread.join = saved_join
+        try:
+            B.PeerConnection.add_out_msg = real_add
+        except NameError:
+            pass
     return hx.check(inputs, obs, ("",), "graceful shutdown")
 
 
